@@ -18,6 +18,7 @@ from .units.f import UnitF
 from .units.x import UnitX, UnitXR
 from .units import r_replay
 from .units import x_replay
+from .units import xr_replay
 import functools as _ft
 
 
@@ -124,6 +125,17 @@ def c16_witness(pid, fails, repo):
 
 
 def c07_witness(pid, fails, repo):
+    if any(getattr(f, 'unit', '') == 'XR' for f in fails):
+        # facet reading (unit XR): restrictions declaring their facets in every supported way, read by the real reader
+        res = xr_replay.search(repo)
+        out = {'found': bool(res['anomalies']), 'restrictions_read_by_real_code': res['restrictions_read_by_real_code'], 'bounded': '421 restriction shapes'}
+        if res['anomalies']:
+            out['input'] = res['anomalies'][0]
+            out['more'] = res['anomalies'][1:4]
+            out['total_mismatches'] = res['n']
+        if res.get('error'):
+            out['error'] = res['error'][-600:]
+        return out
     if any(f.obligation.startswith('helpers::') for f in fails):
         return c16_witness(pid, fails, repo)
     if any(f.obligation.startswith('restrictions::') for f in fails):
